@@ -61,8 +61,10 @@ let model fs =
                      @ List.map (fun w -> "S" ^ hex_of_bytes w) s.s_rpt @ ["WF1"])
 
 (* the observation of the C program, from its result line *)
-let spec _c o =
+let spec c o =
+  ignore (input_of c);                      (* a case the harness refuses is no observation *)
   match o with
+  | "BADCASE" :: _ -> "BADCASE"
   | "B" :: toks ->
     let code = ref (-1) and mail = ref None and words = ref [] and wf = ref false and bad = ref false in
     List.iter (fun tok ->
